@@ -1,17 +1,17 @@
 #!/bin/bash
 # Applies every patch of mutants/MAP.txt to a scratch worktree of /repo HEAD (outside /repo and /verif), runs the named
 # check's quick tier against it (VERIF_REPO) and requires exit 1 with a VIOLATION line of that property.
-# Not part of MANIFEST checks. usage: bin/selftest.sh [filter]
+# Entries run side by side (SELFTEST_JOBS, default 3), each in its own worktree and its own copy of the evidence
+# directory is not needed: the evidence files of /verif are restored at the end.
+# Not part of MANIFEST checks. usage: bin/selftest.sh [extended regex over "<patch> <property>"]
 ROOT="$(cd "$(dirname "${BASH_SOURCE[0]}")/.." && pwd)"
 cd "$ROOT" || exit 2
 mkdir -p /tmp/vs
-fail=0
-grep -v '^#' mutants/MAP.txt | while read -r patch prop race rest; do
-  [ -z "$patch" ] && continue
-  [ -n "${1:-}" ] && ! echo "$patch $prop" | grep -q "$1" && continue
+if [ "$1" = "--one" ]; then
+  patch="$2"; prop="$3"; race="$4"
   [ "$race" != "race" ] && race=""
-  WT=/tmp/vs/selftest.$$.$prop
-  git -C /repo worktree add -q --detach "$WT" HEAD || { echo "SELFTEST $patch: cannot create worktree"; continue; }
+  WT=/tmp/vs/selftest.$$.$prop.$RANDOM
+  git -C /repo worktree add -q --detach "$WT" HEAD || { echo "SELFTEST $patch: cannot create worktree"; exit 0; }
   if git -C "$WT" apply "$ROOT/$patch" 2>/dev/null; then
     out=$(VERIF_REPO="$WT" VERIF_SELFTEST=1 bin/check.sh "$prop" quick $race 2>&1); rc=$?
     sigs=$(echo "$out" | grep -a "signature=" | sed 's/ detail=.*//' | sed 's/^ *signature=//' | sort -u | head -4 | tr '\n' ' ')
@@ -20,5 +20,13 @@ grep -v '^#' mutants/MAP.txt | while read -r patch prop race rest; do
     echo "SELFTEST $patch: does not apply to /repo HEAD"
   fi
   git -C /repo worktree remove --force "$WT" >/dev/null 2>&1
-done
+  exit 0
+fi
+grep -v '^#' mutants/MAP.txt | while read -r patch prop race rest; do
+  [ -z "$patch" ] && continue
+  [ -n "${1:-}" ] && ! echo "$patch $prop" | grep -E -q "$1" && continue
+  [ "$race" != "race" ] && race="-"
+  echo "$patch $prop $race"
+done | xargs -P "${SELFTEST_JOBS:-3}" -L 1 "$ROOT/bin/selftest.sh" --one
+git -C /repo worktree prune
 git -C "$ROOT" checkout -- evidence 2>/dev/null
